@@ -7,6 +7,7 @@ import J5V.Codec.ProgressProofs
 import J5V.Codec.AnyProofs
 import J5V.Codec.InlinedOneof
 import J5V.Codec.AnyJ5Mode
+import J5V.Codec.DecimalNorm
 import J5V.Generated.CodecFacts
 /-!
 # C01 — JSON codec round-trip: `decode (encode m) = m`
@@ -360,6 +361,34 @@ theorem C01_any_j5_expanded_partial (c : Cfg) (hmode : c.protoToAny = true)
     | nil => rfl
     | cons a b => exact enc_any_j5_stable c.env c.O (f + 1) tn [] [] tv.render .inn .none iroot "" _ _ hj
 
+/-- **decimals that are not in normal form (one member, `_partial`)** — round 4. What the code does,
+precisely: the encoder writes the stored text `s` verbatim as a quoted string; the decoder stores
+`decimal.NewFromString(s).String()` (`O.parseDec s = some norm`). So for ANY decimal whose text
+parses (normal form or not: `1.50`, `+1.5`, `1e3`, `001.5`) and is valid UTF-8, in any decoder state:
+`decode (encode (.dec s)) = .dec norm` — the round trip holds **up to numeric normalisation**
+(`canonScalar`), as a property value and as an array element; and `norm` is a fixpoint
+(`OracleLaws.dec`): encoding the decoded value and decoding again returns it unchanged, so
+`decode ∘ encode` is idempotent and everything after the first round trip is exact. Not part of the
+whole-message theorem (`valOk` asks for normal form): that needs the decoder's results to be carried
+through the induction up to `canonScalar` — see notes/codec-lean.md. -/
+theorem C01_decimal_normalised_partial (c : Cfg) (L : OracleLaws c.O) (props : List PropDef)
+    (p : PropDef) (st : PS) (s norm : Bytes) (f : Nat)
+    (hf : p.field = .scalar .decimal) (hp : p.path ≠ []) (hs : p.jsonName ∉ st.seen)
+    (hgb : groupBusy props p st.m = false) (hu : isValidUtf8 s = true)
+    (hpd : c.O.parseDec s = some norm) :
+    ∃ lit, encValue c.env c.O (f + 1) (.scalar .decimal) (.dec s) = .ok (.str s lit) ∧
+      decProp c props p (.str s lit) st =
+        .ok { m := updPath props p (some (.dec norm)) st.m, seen := p.jsonName :: st.seen } ∧
+      (∀ rest acc, decElems c (.scalar .decimal) (.cons (.str s lit) rest) acc =
+        decElems c (.scalar .decimal) rest (acc ++ [.dec norm])) ∧
+      canonScalar c.O (.dec s) = .dec norm ∧
+      (∀ lit', decProp c props p (.str norm lit') st =
+        .ok { m := updPath props p (some (.dec norm)) st.m, seen := p.jsonName :: st.seen }) := by
+  obtain ⟨lit, hl⟩ := enc_decimal c.env c.O f s hu
+  refine ⟨lit, hl, dec_decimal_prop c props p st s lit norm hf hp hs hgb hpd,
+    fun rest acc => dec_decimal_elem c s lit norm rest acc hpd, by simp [canonScalar, hpd],
+    fun lit' => dec_decimal_prop c props p st norm lit' norm hf hp hs hgb (L.dec s norm hpd)⟩
+
 /-! ## Non-vacuity -/
 
 /-- hypotheses of `C01_any_j5_partial`: the value `{}` -/
@@ -613,6 +642,24 @@ example : expTree.complete = true ∧ expTree.depth ≤ 10000 ∧ expTree.render
 example : decRootTree { env := expEnv, O := toyOracle, protoToAny := true, anyDepth := 0 + 1 } "t.I" expTree =
     .ok [(1, .str (ascii "x"))] := by rfl
 
+/-- `C01_decimal_normalised_partial`: an oracle that normalises `1.50` to `1.5` (and knows `1.5`),
+satisfying the laws -/
+def normOracle : Oracle :=
+  { toyOracle with
+    parseDec := fun t =>
+      if t = ascii "1.50" then some (ascii "1.5") else if t = ascii "1.5" then some (ascii "1.5") else none }
+example : normOracle.parseDec (ascii "1.50") = some (ascii "1.5") ∧ isValidUtf8 (ascii "1.50") = true := by
+  decide
+example : OracleLaws normOracle :=
+  { toyOracle_laws with
+    dec := by
+      intro s norm h
+      simp only [normOracle] at h ⊢
+      split at h
+      · cases h; decide
+      · split at h
+        · cases h; decide
+        · cases h }
 /-- the oracle laws are satisfiable -/
 example : OracleLaws toyOracle := toyOracle_laws
 
